@@ -20,6 +20,10 @@ import (
 // accept error.
 const acceptRetryDelay = 5 * time.Millisecond
 
+// shutdownWriteGrace is how long writes to a client may still take once the
+// server is stopping (enough to deliver the notice of disconnection).
+const shutdownWriteGrace = 500 * time.Millisecond
+
 // Server is an ldap server that you can add a mux (multiplexer) router to and
 // then run it to accept and process requests.
 type Server struct {
@@ -209,7 +213,20 @@ func (s *Server) Run(addr string, opt ...Option) error {
 		conn.disablePanicRecovery = s.disablePanicRecovery
 		localConnID := connID
 		s.connWg.Add(1)
+		connDone := make(chan struct{})
 		go func() {
+			// when the server is stopped, interrupt reads and writes that are
+			// blocked on the client, so a client can't keep Stop from
+			// returning just by holding its connection open.
+			select {
+			case <-s.shutdownCtx.Done():
+				_ = c.SetReadDeadline(time.Now())
+				_ = c.SetWriteDeadline(time.Now().Add(shutdownWriteGrace))
+			case <-connDone:
+			}
+		}()
+		go func() {
+			defer close(connDone)
 			defer func() {
 				// the connection is only done once it's closed and its
 				// onCloseHandler has returned; Stop waits for that.
